@@ -1844,7 +1844,14 @@ def column_removal(ctx: Ctx, rule: str) -> None:
             else:
                 ks.add("?")
         ctx.instance(rule, fi.where(n), f"attribute grid shape `{unparse(d)}` from {sorted(ks)} frame")
-        if "shrinking" in ks:
+        d_res = resolve(d, fn, _asg=asg)
+        const_dim = isinstance(d_res, ast.Constant) or (isinstance(d_res, ast.Tuple) and all(isinstance(e, ast.Constant) for e in d_res.elts))
+        used_raw = isinstance(getattr(n, "_parent", None), ast.Attribute) and getattr(n, "_parent").attr == "value"
+        if const_dim or used_raw:
+            ctx.violation(rule, fi.short, "grid shape " + unparse(d), fi.where(n),
+                          f"list attributes are not expanded to the original frame's rows x columns grid before columns are cut (`{unparse(getattr(n, '_parent', n))[:70]}`): "
+                          "a vector that is recycled over the original columns is cut at positions that do not correspond to the removed columns")
+        elif "shrinking" in ks:
             ctx.violation(rule, fi.short, "grid shape " + unparse(d), fi.where(n), "attributes are not expanded to the original frame's shape before columns are cut")
         elif ks != {"original"}:
             ctx.gap(rule, f"prepare_dataframe_for_body_encoding: source of the grid shape `{unparse(d)}` not recognised")
